@@ -42,15 +42,20 @@ def seed_for(prop, seed, idx):
     return derive_seed(prop, seed, idx)
 
 
+SCENARIO_BASE = 10_000_000  # run indices from here on are scenario runs
+
+
 def run_idx(spec, seed, idx, render=False):
     ch = Choices(seed=seed_for(spec.prop, seed, idx))
+    ch.run_index = idx
     res = spec.run_one(ch, render=render)
     res["record"] = ch.record
     return res
 
 
-def run_replay(spec, values, render=False):
+def run_replay(spec, values, render=False, run_index=0):
     ch = Choices(replay=values)
+    ch.run_index = run_index
     res = spec.run_one(ch, render=render)
     res["record"] = ch.record
     return res
@@ -137,7 +142,7 @@ def _worker(args):
 
 
 def explore(spec, seed, n_runs, workers=None, selftest_every=0,
-            wall_cap_s=None, chunk=None):
+            wall_cap_s=None, chunk=None, base=0):
     """Run indices 0..n_runs-1.  Returns merged stats."""
     global _SPEC
     _SPEC = spec
@@ -149,7 +154,7 @@ def explore(spec, seed, n_runs, workers=None, selftest_every=0,
         "viol": {}, "sim_us": 0, "steps": 0, "nontrivial": 0,
         "digests": {}, "nondet": [], "workers": workers, "tags": set(),
     }
-    jobs = [(seed, w, n_runs, workers, selftest_every, 8)
+    jobs = [(seed, base + w, base + n_runs, workers, selftest_every, 8)
             for w in range(workers)]
     if workers == 1:
         results = [_worker(jobs[0])]
@@ -201,12 +206,12 @@ def fresh_interpreter_digests(check_file, seed, idxs, hashseed):
     return {int(k): v for k, v in json.loads(line[-1][8:]).items()}
 
 
-def minimise(spec, key, record, max_runs=400, wall_s=40):
+def minimise(spec, key, record, max_runs=400, wall_s=40, run_index=0):
     sw = report.Stopwatch()
 
     def still(cand):
         try:
-            r = run_replay(spec, cand)
+            r = run_replay(spec, cand, run_index=run_index)
         except Exception:
             return False
         return any(k == key for k, _ in keyed_violations(spec, r))
@@ -268,7 +273,8 @@ def _replay(spec, path):
         rp = json.load(f)
     if rp.get("custom"):
         return spec.replay_custom(rp, path)
-    r = run_replay(spec, rp["choices"], render=True)
+    r = run_replay(spec, rp["choices"], render=True,
+                   run_index=rp.get("run_index", 0))
     keys = [k for k, _ in keyed_violations(spec, r)]
     print(json.dumps(r.get("render"), indent=1, default=str))
     print(f"replay digest   {r['digest']}")
@@ -292,6 +298,21 @@ def _explore_main(spec, check_file, tier, seed, args, sw):
     n_runs = args.runs or spec.tiers[tier]
     every = max(1, n_runs // spec.selftest_samples)
     merged = explore(spec, seed, n_runs, selftest_every=every)
+    k = getattr(spec, "scenario_runs", {}).get(tier, 0)
+    if k:
+        # scenario runs: the same seeded machinery, with parts of the drawn
+        # configuration pinned to situations the free search only meets now
+        # and then (indices from SCENARIO_BASE on)
+        extra = explore(spec, seed, k, base=SCENARIO_BASE)
+        for key2 in ("runs", "sim_us", "steps", "nontrivial"):
+            merged[key2] += extra[key2]
+        merged["faults"].update(extra["faults"])
+        merged["probes"].update(extra["probes"])
+        merged["sigs"] |= extra["sigs"]
+        merged["tags"] |= extra["tags"]
+        merged["nondet"] += extra["nondet"]
+        for key2, lst in extra["viol"].items():
+            merged["viol"].setdefault(key2, []).extend(lst)
 
     # determinism self-test: same index twice in-process (done in workers),
     # and again in a fresh interpreter, other PYTHONHASHSEED, one worker.
@@ -319,8 +340,9 @@ def _explore_main(spec, check_file, tier, seed, args, sw):
         idx, detail, record = merged["viol"][key][0]
         best, shrink_runs = minimise(spec, key, record,
                                      max_runs=spec.shrink_runs,
-                                     wall_s=spec.shrink_wall_s)
-        r = run_replay(spec, best, render=True)
+                                     wall_s=spec.shrink_wall_s,
+                                     run_index=idx)
+        r = run_replay(spec, best, render=True, run_index=idx)
         kd = [(k, d) for k, d in keyed_violations(spec, r) if k == key]
         if not kd:  # cannot happen: shrink only keeps reproducing lists
             raise HarnessError(f"minimised replay lost violation {key}")
